@@ -41,6 +41,9 @@ type scenario struct {
 	accounts map[string]string
 	mutate   func(c *chain.Chain, gs simapp.GenesisState)
 	run      func(c *chain.Chain)
+	// checkpoints: every block unless every > 1 (long scenarios), plus up to
+	// boundary heights where something falls due in the next block
+	every, boundary int64
 }
 
 const tick = 5 * time.Second
@@ -274,7 +277,8 @@ var scenarios = []scenario{
 			blk(c, tx("a", &randomtypes.MsgRequestRandom{BlockInterval: 3, Consumer: addr(c, "a")}),
 				tx("b", &randomtypes.MsgRequestRandom{BlockInterval: 6, Consumer: addr(c, "b")}))
 			blk(c, tx("a", &randomtypes.MsgRequestRandom{BlockInterval: 5, Consumer: addr(c, "a")}))
-			for i := 0; i < 4; i++ {
+			// ... until every request is fulfilled and nothing is pending
+			for i := 0; i < 8; i++ {
 				blk(c)
 			}
 		},
@@ -333,11 +337,21 @@ func runScenario(w *chain.TraceWriter, s scenario, keep string) (err error) {
 			return err
 		}
 	}
-	return runRecording(w, path, 1, -1, 0, 0)
+	every := s.every
+	if every < 1 {
+		every = 1
+	}
+	return runRecording(w, path, every, -1, 0, s.boundary)
 }
 
 func runScenarios(w *chain.TraceWriter, name, keep string) error {
 	var names []string
+	if name == "list" {
+		for _, s := range scenarios {
+			fmt.Println(s.name)
+		}
+		return nil
+	}
 	for _, s := range scenarios {
 		names = append(names, s.name)
 	}
